@@ -404,7 +404,11 @@ type l5ConcObs struct {
 	Errors      []string `json:"errors"`
 	Calls       int      `json:"calls"`
 	Evictions   int      `json:"evictions"`
-	Panic       string   `json:"panic,omitempty"`
+	// TxStray: driver calls made on behalf of a transaction on another connection than the
+	// transaction's; TxRuns: statements issued through transactions
+	TxStray int    `json:"txStray"`
+	TxRuns  int    `json:"txRuns"`
+	Panic   string `json:"panic,omitempty"`
 }
 
 func runL5Conc(r *rng.R, threads, perThread int) (obs *l5ConcObs) {
@@ -454,6 +458,55 @@ func runL5Conc(r *rng.R, threads, perThread int) (obs *l5ConcObs) {
 				s := stmts[tr.Intn(nS)]
 				di := tr.Intn(nD)
 				shape := tr.Pick9()
+				if !stress && open == nil && tr.Chance(1, 5) {
+					// a transaction running one to four statements (several shapes of the same
+					// Statements the other goroutines run on the DB), then Commit or Rollback
+					txid := t*10000 + i
+					bctx := context.WithValue(context.Background(), fakedrv.CtxKey{}, fmt.Sprintf("txB-%d", txid))
+					tx, berr := dbs[di].db.Begin(bctx, nil)
+					if berr != nil {
+						mu.Lock()
+						obs.Errors = append(obs.Errors, "begin: "+berr.Error())
+						mu.Unlock()
+						continue
+					}
+					nq := 1 + tr.Intn(4)
+					for k := 0; k < nq; k++ {
+						s := stmts[tr.Intn(nS)]
+						if k > 0 && tr.Chance(1, 2) {
+							shape = tr.Pick9()
+						}
+						ctx := context.WithValue(context.Background(), fakedrv.CtxKey{}, fmt.Sprintf("d%d-k%d-x%d", di+1, shape, txid))
+						ints, strs := l5Args(shape)
+						var rows []Row
+						err := tx.Query(ctx, s, ints, strs).GetAll(&rows)
+						if k == 0 && tr.Chance(1, 2) {
+							// the same shape on the DB in between: the pair's cache entry changes
+							// while the transaction is open
+							shape2 := tr.Pick9()
+							c2 := context.WithValue(context.Background(), fakedrv.CtxKey{}, fmt.Sprintf("d%d-k%d", di+1, shape2))
+							i2, s2 := l5Args(shape2)
+							var r2 []Row
+							dbs[di].db.Query(c2, s, i2, s2).GetAll(&r2)
+						}
+						mu.Lock()
+						obs.Calls++
+						obs.TxRuns++
+						if err != nil && errText(err) != "noRows" {
+							obs.Errors = append(obs.Errors, err.Error())
+							if strings.Contains(err.Error(), "statement is closed") {
+								obs.ClosedErrs++
+							}
+						}
+						mu.Unlock()
+					}
+					if tr.Chance(1, 2) {
+						tx.Commit()
+					} else {
+						tx.Rollback()
+					}
+					continue
+				}
 				ctx := context.WithValue(context.Background(), fakedrv.CtxKey{}, fmt.Sprintf("d%d-k%d", di+1, shape))
 				ints, strs := l5Args(shape)
 				q := dbs[di].db.Query(ctx, s, ints, strs)
@@ -498,7 +551,19 @@ func runL5Conc(r *rng.R, threads, perThread int) (obs *l5ConcObs) {
 	for di, d := range dbs {
 		prepared := map[int]string{}
 		closed := map[int]bool{}
+		txConn := map[int]int{}
 		for _, e := range d.state.Events() {
+			var txid int
+			if n, _ := fmt.Sscanf(e.Ctx, "txB-%d", &txid); n == 1 && e.Kind == "begin" {
+				txConn[txid] = e.Conn
+			}
+			if i := strings.LastIndex(e.Ctx, "-x"); i >= 0 && (e.Kind == "prepare" || e.Kind == "exec" || e.Kind == "query") {
+				if n, _ := fmt.Sscanf(e.Ctx[i:], "-x%d", &txid); n == 1 {
+					if c, ok := txConn[txid]; !ok || c != e.Conn {
+						obs.TxStray++
+					}
+				}
+			}
 			switch e.Kind {
 			case "prepare":
 				prepared[e.Stmt] = e.SQL
@@ -666,7 +731,7 @@ func runL5(args []string) {
 			if err != nil {
 				fatalf("driver: %v", err)
 			}
-			holds := map[string]bool{"C09": getBool(resp, "c09"), "C10": getBool(resp, "c10"), "C11": getBool(resp, "c11")}
+			holds := map[string]bool{"C09": getBool(resp, "c09"), "C10": getBool(resp, "c10"), "C11": getBool(resp, "c11"), "C12": getBool(resp, "c12")}
 			for p, ok := range holds {
 				if !ok {
 					obs.Execs = nil
